@@ -1230,4 +1230,114 @@ theorem points_to_tribits_eq (ps : List Nat) :
   | ok ts => rfl
 
 
+
+/-! ### `decode` -/
+
+theorem bitsToDibits_facts : ∀ (s : Bits) (ds : List Int), bitsToDibits s = .ok ds → isChars ds ∧ ds.length ≤ s.length := by
+  intro s
+  induction s using pairs_induct with
+  | h0 => intro ds h; simp [bitsToDibits] at h; subst h; exact ⟨fun x hx => by simp at hx, by simp⟩
+  | h1 x => intro ds h; simp [bitsToDibits] at h
+  | h2 a b r ih =>
+    intro ds h
+    unfold bitsToDibits lookupR at h
+    cases hl : dibits.lookup (a, b) with
+    | none => simp [hl] at h
+    | some v =>
+      simp only [hl] at h
+      cases hr : bitsToDibits r with
+      | error e => simp [hr] at h
+      | ok rs =>
+        simp only [hr, Except.ok.injEq] at h
+        subst h
+        obtain ⟨h1, h2⟩ := ih rs hr
+        refine ⟨?_, by simp; omega⟩
+        intro x hx
+        simp only [List.mem_cons] at hx
+        rcases hx with rfl | hx
+        · exact dibits_range a b _ hl
+        · exact h1 x hx
+
+theorem scatter_length (n : Nat) : ∀ (ms : List Nat) (vs out r : List Int), scatter n ms vs out = .ok r → r.length = out.length := by
+  intro ms
+  induction ms with
+  | nil => intro vs out r h; simp [scatter] at h; subst h; rfl
+  | cons m ms ih =>
+    intro vs out r h
+    cases vs with
+    | nil => simp [scatter] at h
+    | cons v vs =>
+      unfold scatter at h
+      by_cases hm : m < n
+      · simp only [hm, if_true] at h
+        have := ih vs _ r h
+        simpa using this
+      · simp [hm] at h
+
+theorem bindR {α β γ : Type} (m : PyM β) (r : R α) (f : α → β) (k : β → PyM γ) :
+    m = ofR f r → (m >>= k) = match r with
+      | .ok v => k (f v)
+      | .error x => .error (errOf x) := by
+  intro h; subst h; cases r <;> rfl
+
+theorem bindR_id {α γ : Type} (m : PyM α) (r : R α) (k : α → PyM γ) :
+    m = ofR id r → (m >>= k) = match r with
+      | .ok v => k v
+      | .error x => .error (errOf x) := by
+  intro h; subst h; cases r <;> rfl
+
+/-- `decode(encoded)` (`as_bytes=False`), EVERY bit string: the model's `decode` -/
+theorem decode_eq (e : Bits) : Transl.Trellis.decode e = ofR id (Dmr.Trellis.decode e) := by
+  unfold Transl.Trellis.decode Dmr.Trellis.decode streamPoints
+  rw [assert_bind]
+  by_cases hl : e.length = 196
+  · have hc : (len e == 196) = true := by simp [hl]
+    have hne : ¬ (e.length ≠ 196) := by omega
+    have he53 : e.length < 2 ^ 53 := by rw [hl]; decide
+    rw [if_pos hc, if_neg hne, bindR_id _ _ _ (bits_to_dibits_eq e he53)]
+    cases hd : bitsToDibits e with
+    | error x => rfl
+    | ok ds =>
+      obtain ⟨hch, hlen⟩ := bitsToDibits_facts e ds hd
+      dsimp only
+      show (Transl.Trellis.deinterleave ds >>= _) = _
+      rw [bindR_id _ _ _ (deinterleave_eq ds hch)]
+      cases hdd : Dmr.Trellis.deinterleave ds with
+      | error x => rfl
+      | ok dd =>
+        have hddl : dd.length = ds.length := by
+          unfold Dmr.Trellis.deinterleave at hdd
+          have := scatter_length _ _ _ _ _ hdd
+          simpa using this
+        have h196 : dd.length ≤ 196 := by omega
+        have hdd53 : dd.length < 2 ^ 53 := Nat.lt_of_le_of_lt h196 (by decide)
+        dsimp only
+        show (Transl.Trellis.dibits_to_points dd >>= _) = _
+        rw [bindR _ _ _ _ (dibits_to_points_eq dd hdd53)]
+        cases hp : dibitsToPoints dd with
+        | error x => rfl
+        | ok ps =>
+          dsimp only
+          show (Transl.Trellis.points_to_tribits (ps.map (fun x : Nat => (x : Int))) >>= _) = _
+          rw [bindR _ _ _ _ (points_to_tribits_eq ps)]
+          cases ht : pointsToTribits ps with
+          | error x => rfl
+          | ok ts =>
+            dsimp only
+            exact tribits_to_bits_eq ts
+  · have hc : ¬ ((len e == 196) = true) := by simp only [len_eq, beq_iff_eq]; omega
+    rw [if_neg hc, if_pos hl]; rfl
+
+
+/-- `decode(encoded, as_bytes=True)`, every bit string: the model's `decodeAsBytes` -/
+theorem decode_as_bytes_eq (e : Bits) : Transl.Trellis.decode_as_bytes e = ofR id (Dmr.Trellis.decodeAsBytes e) := by
+  have h : Transl.Trellis.decode_as_bytes e = (Transl.Trellis.decode e >>= fun d => pure (PyBits.tobytes d)) := by
+    unfold Transl.Trellis.decode_as_bytes Transl.Trellis.decode
+    simp only [bind_assoc]
+  rw [h, decode_eq]
+  unfold decodeAsBytes
+  cases Dmr.Trellis.decode e with
+  | error x => rfl
+  | ok b => rfl
+
 end Dmr.Transl.Trellis
